@@ -1151,7 +1151,7 @@ func (c *Conn) doInsert(st *ast.InsertStmt, args []interface{}) (*result, error)
 			if err := c.checkUnique(tab, key, row, local); err != nil {
 				if de, ok := err.(*dupErr); ok {
 					dupKey = de.key
-					if dupKey != key {
+					if dupKey != key && !autoAssigned {
 						// the duplicate is met, through a unique index, on a row whose
 						// primary key is not the one the statement names
 						res.notes = append(res.notes, "dup-on-other-row")
